@@ -16,6 +16,8 @@ pub enum Alpha {
     Ratio,
     /// Full plus the malformed-call menu (C13)
     FullBad,
+    /// Full plus one malformed call of each category (histories with failed calls, C10)
+    FullFewBad,
 }
 
 #[derive(Clone, Debug)]
@@ -78,15 +80,34 @@ fn dedup_f(v: &mut Vec<f64>) {
     *v = out;
 }
 
-/// The relative ratios of the alphabet: 1/m, x-, 1, x+, m.
+/// The relative ratios of the alphabet: 1/m, x-, 1, x+, m  (x- = 0.5, x+ = 2 when in range).
+/// These keep 1/ratio dyadic for dyadic original ratios, so orbits still close.
 pub fn rel_values(m: f64) -> Vec<f64> {
     if m <= 1.0 {
         return vec![1.0];
     }
-    let lo = if 0.5 > 1.0 / m { 0.5 } else { (1.0 / m + 1.0) / 2.0 };
-    let hi = if 2.0 < m { 2.0 } else { (1.0 + m) / 2.0 };
-    let mut v = vec![1.0 / m, lo, 1.0, hi, m];
+    let mut v = vec![1.0 / m];
+    if 0.5 > 1.0 / m {
+        v.push(0.5);
+    }
+    v.push(1.0);
+    if 2.0 < m {
+        v.push(2.0);
+    }
+    v.push(m);
     dedup_f(&mut v);
+    v
+}
+
+/// Relative ratios strictly inside (1/m, 1) and (1, m) that are not in `rel_values`: midpoints.
+/// They make 1/ratio non-dyadic (orbits no longer close), so they are only offered as the
+/// last deviation of a history.
+pub fn rel_midpoints(m: f64) -> Vec<f64> {
+    if m <= 1.0 {
+        return vec![];
+    }
+    let mut v = vec![(1.0 / m + 1.0) / 2.0, (1.0 + m) / 2.0];
+    v.retain(|x| !rel_values(m).iter().any(|y| y.to_bits() == x.to_bits()));
     v
 }
 
@@ -103,12 +124,18 @@ pub fn chunk_values(cfg: &Cfg) -> Vec<usize> {
 }
 
 /// The deviations offered in a state.
-pub fn deviations(cfg: &Cfg, alpha: Alpha, g: &Getters, _st: &State) -> Vec<Op> {
+pub fn deviations(cfg: &Cfg, alpha: Alpha, g: &Getters, _st: &State, last_layer: bool) -> Vec<Op> {
     let mut ops: Vec<Op> = vec![Op::Px];
     if cfg.kind.is_async() {
         for x in rel_values(cfg.max_rel) {
             ops.push(Op::R(x, false));
             ops.push(Op::R(x, true));
+        }
+        if last_layer {
+            for x in rel_midpoints(cfg.max_rel) {
+                ops.push(Op::R(x, false));
+                ops.push(Op::R(x, true));
+            }
         }
         if cfg.max_rel > 1.0 {
             ops.push(Op::Ra(cfg.ratio * cfg.max_rel, false));
@@ -152,6 +179,19 @@ pub fn deviations(cfg: &Cfg, alpha: Alpha, g: &Getters, _st: &State) -> Vec<Op> 
     }
     if alpha == Alpha::FullBad {
         ops.extend(bad_menu(cfg));
+    }
+    if alpha == Alpha::FullFewBad {
+        let last = (cfg.channels - 1) as u8;
+        ops.extend([
+            Op::Bad(Bad::InChans(1)),
+            Op::Bad(Bad::MaskLen(1)),
+            Op::Bad(Bad::InShort(0, 1)),
+            Op::Bad(Bad::OutShort(last, 1)),
+        ]);
+        if cfg.channels >= 2 {
+            let all = (1u32 << cfg.channels) - 1;
+            ops.push(Op::Bad(Bad::MaskedOutShort(all & !1, 1)));
+        }
     }
     ops
 }
@@ -311,7 +351,7 @@ pub fn explore_sys(spec: &Spec, make: Factory, journal: Journal) -> Result<Outco
             if nd < spec.bound || (!spec.final_layer.is_empty() && (steps == 0 || !spec.final_layer_first_only)) {
                 let g = live.getters();
                 let devs = if nd < spec.bound {
-                    deviations(cfg, if nd == 0 { spec.alpha } else { spec.alpha_deep }, &g, &st)
+                    deviations(cfg, if nd == 0 { spec.alpha } else { spec.alpha_deep }, &g, &st, nd + 1 >= spec.bound)
                 } else {
                     spec.final_layer.clone()
                 };
@@ -384,8 +424,15 @@ pub fn explore_sys(spec: &Spec, make: Factory, journal: Journal) -> Result<Outco
                     if nd < spec.bound && !seen.contains(&k2) && queued.insert(k2) {
                         let mut h2 = h.clone();
                         h2.push(d);
-                        if out.samples.len() < 3 && h2.len() >= 2 {
-                            out.samples.push(history_text(&h2));
+                        // keep a few of the richest histories (most deviations) as samples
+                        let devs_in = |t: &str| t.split_whitespace().filter(|x| !x.starts_with('P') || x.starts_with("PP") || x.starts_with("PM") || *x == "Px").count();
+                        let txt = history_text(&h2);
+                        if out.samples.len() < 3 {
+                            out.samples.push(txt);
+                        } else if let Some((i, _)) = out.samples.iter().enumerate().min_by_key(|(_, t)| devs_in(t)) {
+                            if devs_in(&txt) > devs_in(&out.samples[i]) {
+                                out.samples[i] = txt;
+                            }
                         }
                         frontier.push_back((h2, nd + 1));
                     }
